@@ -163,6 +163,20 @@ CHECKS = {
         "exhaustive outcome-sequence enumeration to a length bound + Hypothesis long histories against a counter model",
         "DESIGN.md 4/C19",
     ),
+    "C17": (
+        "exploration",
+        "formNetwork, leaveNetwork, energy/active startScan on EZSP and _ensure_network_running on the application run "
+        "against a simulated NCP on a virtual clock under Hypothesis-generated schedules: response status (OK, refusals, "
+        "none) at a generated delay, matching and non-matching status events and scan result/completion callbacks placed "
+        "before the request, before the response and after it (including at 10 s boundaries), duplicate completions, caller "
+        "cancellation; 1-8 (thorough 1-20) operations in a row on the same objects, versions 4/6/8/13/14. A reference "
+        "function computes the set of acceptable outcomes from the schedule (ok / documented refusal error / TimeoutError "
+        "inside [request+10 s, response+10 s] / cancelled; scan result lists); after every operation the callback and "
+        "status-listener counts must be back at baseline, and a probe event reaches exactly the baseline handlers.",
+        "Results that arrive after a scan's completion callback but before its response are accepted either way (statement silent).",
+        "Hypothesis schedule generation on a virtual clock against a simulated NCP; reference outcome function + leak invariants",
+        "DESIGN.md 4/C17",
+    ),
 }
 
 NOT_YET = "check not built yet in this session (planned, see DESIGN.md section 4)"
